@@ -150,6 +150,9 @@ UNITS.append(dataclass_unit("C14"))
 from contracts.class_type import class_type_unit  # noqa: E402
 UNITS.append(class_type_unit("C14"))
 
+from contracts.class_type import discard_unit, subclass_arm_unit  # noqa: E402
+UNITS += [subclass_arm_unit("C14"), discard_unit("C14")]
+
 VERIFIED_CALLEES = ("is_subclass_spec",)
 LEVEL = "other"
 TECHNIQUE = "contract-based deductive verification of the spec-normalisation helpers (VCs from the real AST, complete case analysis of spec shapes) + bounded run-time contract checking on generated class families with a constructor log"
